@@ -325,6 +325,12 @@ func compGlyph(name, base, accent string, adx, ady Q) *Glyph {
 
 func compositeFonts() []*Font {
 	var out []*Font
+	// all three glyphs with the same fractional side bearing (no hints: those need an integer one)
+	for _, sb := range []Q{R(81, 2), R(-7, 3)} {
+		a, acc, comp := baseGlyph("A", 1, 0), accentGlyph("acute", false), compGlyph("Aacute", "A", "acute", I(120), R(401, 2))
+		a.Sbx, acc.Sbx, comp.Sbx = sb, sb, sb
+		out = append(out, NewFont(fmt.Sprintf("F:composite with side bearing %s", sb), notdef(), a, acc, comp))
+	}
 	n := 0
 	for _, bo := range []int{1, 5, 11, 7} { // base outlines: lines, curves, flex-after-line, two contours
 		for _, hints := range []int{0, 3} {
